@@ -6,6 +6,7 @@ From Tx Require Import Common.Base.
 From Tx Require ReplayDetector.Model ReplayDetector.Spec.
 From Tx Require PacketIO.Model PacketIO.Spec.
 From Tx Require Xor.Model.
+From Tx Require Bridge.Model.
 
 (* entry points: a request is a list of sections, a section a list of integer lists *)
 Definition req := list (list zs).
@@ -53,8 +54,14 @@ Definition e_xor_model (r : req) : list zs :=
   | _ => []
   end.
 
+Definition e_c18_model (r : req) : list zs :=
+  match r with
+  | (conf :: _) :: ops :: _ => Bridge.Model.c18_run conf ops
+  | _ => []
+  end.
+
 Extraction Language OCaml.
 Extraction "extracted.ml" Z.add Z.mul Z.div_eucl Z.of_nat Z.to_nat
   e_rd_model e_rd_spec e_rd_oracle
   e_pio_model e_pio_spec e_pio_oracle
-  e_xor_model.
+  e_xor_model e_c18_model.
